@@ -115,6 +115,7 @@ def run(ctx: Ctx) -> None:
     effects.rule_shared_op_store(ctx)
     effects.rule_alias_into_state(ctx)
     effects.rule_noise_order(ctx)
+    effects.rule_stale_swap_read(ctx)
     rule_rewrite_order(ctx)
     ctx.floor("effect.inplace-on-input", 30)
     ctx.floor("effect.shared-op-store", 8)
@@ -122,6 +123,7 @@ def run(ctx: Ctx) -> None:
 
 
 KNOCKOUTS = [
+    Knockout("noise-masked-in-place", CBASE, sub_nth("                            tmp_noise = [op.noise[0], nm.NoNoise]\n                            op.noise = tmp_noise\n", "                            op.noise[1] = nm.NoNoise\n", 0), "effect.stale-swap-read", "in-place store"),
     Knockout("group-merge-reversed", DAG, sub_once("                        gate_list += op.operations\n", "                        gate_list += list(reversed(op.operations))\n"), "order.wrapper", "reversed when merged"),
     Knockout("export-node-order", "graphiq/circuit/circuit_dag.py", sub_once("        for op in self.sequence():\n            if isinstance(op, ops.InputOutputOperationBase):", "        for op in [self.dag.nodes[k]['op'] for k in self.dag.nodes]:\n            if isinstance(op, ops.InputOutputOperationBase):"), "order.topological", "node-creation order"),
 
